@@ -39,6 +39,13 @@ pub struct FnOpts {
     pub prog_calls: Vec<(String, String)>,
     /// binders emitted before those of the signature (the abstract item type's pure methods)
     pub extra_binders: String,
+    /// the program type of a function in interaction form when it is not `Slice.ItemProg ι` (e.g. `Slice.TreeProg χ`): its namespace has
+    /// `ofExcept`; the type is applied to `α` and the result type
+    pub prog_name: Option<(String, String)>,
+    /// methods of the (untranslated) `tree` parameter that are program nodes: (name, Lean operation); the value is an `f32`
+    pub tree_calls: Vec<(String, String)>,
+    /// translated functions (Lean names) that are programs of `prog_name` themselves: called without `ofExcept`
+    pub prog_fns: Vec<String>,
 }
 
 /// `0.01` ↦ `Num.ofNat 1 / Num.ofNat 100`
@@ -71,8 +78,18 @@ pub fn roots_in_iter_mut(e: &Expr) -> bool {
 /// in a program of `Slice.ItemProg`: an operation of `Except GErr` (a vocabulary primitive or a translated function that can panic) is lifted;
 /// blocks and the monadic list combinators are already programs
 pub fn lift_except(x: X) -> X {
+    lift_except_in(&FnOpts::default(), x)
+}
+
+/// the same for a function whose program type is `opts.prog_name`
+pub fn lift_except_in(opts: &FnOpts, x: X) -> X {
+    let ns = opts.prog_name.as_ref().map(|p| p.1.clone()).unwrap_or("Slice.ItemProg".to_string());
+    let own = format!("{ns}.");
+    if matches!(&x, X::App(f, _) if opts.prog_fns.iter().any(|p| p == f)) {
+        return x;
+    }
     match &x {
-        X::App(f, _) if (f.starts_with("Slice.") && !["Slice.loopM", "Slice.ItemProg."].iter().any(|p| f.starts_with(p))) || f.starts_with("Gen.") => X::app("Slice.ItemProg.ofExcept", vec![x]),
+        X::App(f, _) if (f.starts_with("Slice.") && !["Slice.loopM", "Slice.ItemProg.", own.as_str()].iter().any(|p| f.starts_with(p))) || f.starts_with("Gen.") => X::app(&format!("{ns}.ofExcept"), vec![x]),
         _ => x,
     }
 }
@@ -391,6 +408,130 @@ impl<'a> Cx<'a> {
             T::Fn(_, fr) if r.compatible(fr) => Ok((f, T::Fn(ps, Box::new(r)))),
             _ => Err("fn pointer cast of a closure with another result type".into()),
         }
+    }
+
+    /// `let x = recv.m(…);` where the translated method `m` updates its receiver (a place) and answers a value
+    pub(super) fn let_mut_method(&mut self, pat: &Pat, init: &Expr) -> R<bool> {
+        let m = match strip(init) {
+            Expr::MethodCall(m) => m,
+            _ => return Ok(false),
+        };
+        let name = m.method.to_string();
+        let rt = match self.peek_type(&m.receiver) {
+            Some(t) => t,
+            None => return Ok(false),
+        };
+        let args: Vec<&Expr> = m.args.iter().collect();
+        let f = match self.env.fns(&rt.head(), &name).into_iter().find(|f| f.muts == vec![0] && f.ret != T::Unit && f.self_ty.as_ref().map(|st| st.compatible(&rt)).unwrap_or(false) && f.params.len() + f.dropped + f.dropped_pos.len() == args.len()) {
+            Some(f) => f,
+            None => return Ok(false),
+        };
+        let var = match pat {
+            Pat::Ident(i) if i.subpat.is_none() => i.ident.to_string(),
+            _ => return Err("`let` pattern for a method call that updates its receiver".into()),
+        };
+        let (recv, _) = self.expr(&m.receiver, &T::Unknown)?;
+        let mut ls = vec![recv];
+        ls.extend(self.args_of(&f, &args, &format!("{}::{name}", rt.head()), &mut HashMap::new())?);
+        let r = self.apply(&f, ls);
+        let r = match r {
+            X::A(_) => r,
+            other => {
+                let tmp = self.fresh_name("r");
+                self.emit(St::Let(tmp.clone(), other));
+                X::A(tmp)
+            }
+        };
+        let (nm, nv) = self.assign_into(&m.receiver, tuple_proj(r.clone(), 0, 2))?;
+        self.emit_let(nm, nv);
+        let ln = self.declare(&var, f.ret.clone());
+        self.emit(St::Let(ln, tuple_proj(r, 1, 2)));
+        Ok(true)
+    }
+
+    /// a block in value position whose statements assign the outer locals `vars`: it answers `((vars…), value)`; a final `if … else …`
+    /// is split into its branches
+    fn block_assigning(&mut self, stmts: &[Stmt], vars: &[String], expect: &T, val_t: &mut T) -> R<Blk> {
+        let saved_locals = self.locals.clone();
+        let saved_cur = std::mem::take(&mut self.cur);
+        let r = (|| -> R<Tail> {
+            let (last, init) = stmts.split_last().ok_or("empty block")?;
+            for st in init {
+                self.stmt(st)?;
+            }
+            match last {
+                Stmt::Expr(Expr::If(i), None) if i.else_branch.is_some() && !matches!(&*i.cond, Expr::Let(_)) => {
+                    let (c, ct) = self.expr(&i.cond, &T::Bool)?;
+                    if ct != T::Bool {
+                        return Err("`if` condition is not a bool".into());
+                    }
+                    let a = self.block_assigning(&i.then_branch.stmts, vars, expect, val_t)?;
+                    let eb: Vec<Stmt> = match &*i.else_branch.as_ref().unwrap().1 {
+                        Expr::Block(b) if b.label.is_none() => b.block.stmts.clone(),
+                        other => vec![Stmt::Expr(other.clone(), None)],
+                    };
+                    let b = self.block_assigning(&eb, vars, expect, val_t)?;
+                    Ok(Tail::If(c, Box::new(a), Box::new(b)))
+                }
+                Stmt::Expr(e, None) => {
+                    let (v, vt) = self.expr(e, expect)?;
+                    if !val_t.compatible(&vt) {
+                        return Err(format!("branches of different types {:?} / {:?}", val_t, vt));
+                    }
+                    *val_t = val_t.join(&vt);
+                    Ok(Tail::Val(X::Tuple(vec![self.vars_tuple(vars), v])))
+                }
+                _ => Err("a block without a value".into()),
+            }
+        })();
+        let out = std::mem::replace(&mut self.cur, saved_cur);
+        self.locals = saved_locals;
+        Ok(Blk { stmts: out, tail: r? })
+    }
+
+    /// `let x = o.unwrap_or_else(|| { … });` whose closure assigns outer locals (through methods that update `self`):
+    /// `match o with | some v => ((outer…), v) | none => (…; ((outer…), value))`
+    pub(super) fn let_unwrap_or_else(&mut self, pat: &Pat, init: &Expr) -> R<bool> {
+        let m = match strip(init) {
+            Expr::MethodCall(m) if m.method == "unwrap_or_else" && m.args.len() == 1 => m,
+            _ => return Ok(false),
+        };
+        let c = match strip(&m.args[0]) {
+            Expr::Closure(c) if c.inputs.is_empty() => c,
+            _ => return Ok(false),
+        };
+        let var = match pat {
+            Pat::Ident(i) if i.subpat.is_none() => i.ident.to_string(),
+            _ => return Err("`let` pattern for `unwrap_or_else`".into()),
+        };
+        let vars = self.assigned_outer_stmts(&[], &[&m.args[0]])?;
+        let (recv, rt) = self.expr(&m.receiver, &T::Unknown)?;
+        let it = match &rt {
+            T::Opt(t) => (**t).clone(),
+            t => return Err(format!("`unwrap_or_else` on a value of type {:?}", t)),
+        };
+        let body: Vec<Stmt> = match &*c.body {
+            Expr::Block(b) if b.label.is_none() => b.block.stmts.clone(),
+            other => vec![Stmt::Expr(other.clone(), None)],
+        };
+        let mut val_t = it.clone();
+        let none_blk = self.block_assigning(&body, &vars, &it, &mut val_t)?;
+        let v = self.fresh_name("v");
+        let some_blk = Blk::val(X::Tuple(vec![self.vars_tuple(&vars), X::A(v.clone())]));
+        let blk = Blk { stmts: vec![], tail: Tail::Match(vec![recv], vec![(vec![format!("(some {v})")], some_blk), (vec!["none".to_string()], none_blk)]) };
+        let eff = blk.effectful();
+        let st = self.fresh_name("st");
+        let x = X::Block(Box::new(blk));
+        self.emit(if eff { St::Bind(st.clone(), x) } else { St::Let(st.clone(), x) });
+        let n = vars.len();
+        for (k, vn) in vars.iter().enumerate() {
+            let l = self.locals[vn].lean.clone();
+            let acc = X::Field(Box::new(X::A(st.clone())), "1".into());
+            self.emit(St::Let(l, if n == 1 { acc } else { tuple_proj(acc, k, n) }));
+        }
+        let ln = self.declare(&var, val_t);
+        self.emit(St::Let(ln, X::Field(Box::new(X::A(st)), "2".into())));
+        Ok(true)
     }
 
     /// `let x = f(…, v, …);` where `f` updates `v` and answers a value
